@@ -145,8 +145,16 @@ EncSsl2Padded(kind, m, pad) == Ssl2RecordPadded(Ssl2Type(kind), Ssl2Body(kind, m
 HelloEmptyExtensions(kind, m) == IF kind = "client_hello" THEN Handshake(1, ClientHelloBody(m) \o <<0, 0>>)
                                  ELSE Handshake(2, ServerHelloBody(m) \o <<0, 0>>)
 \* second conformant encodings of an abstract message, by form
+\* the signalling cipher suite values may stand anywhere in the list (RFC 5746 3.3, RFC 7507 4): here in front of the suites
+ClientHelloScsvFirst(m) == Handshake(1,
+     U16(m.version) \o Random(m) \o Vec1(m.session_id)
+  \o Vec2(Codes16((IF m.empty_renegotiation_info_scsv THEN <<RENEG_SCSV>> ELSE <<>>)
+                  \o (IF m.fallback_scsv THEN <<FALLBACK_SCSV>> ELSE <<>>) \o m.cipher_suites))
+  \o Vec1(Codes8(m.compression_methods))
+  \o Extensions(m.extensions))
 EncAlt(form, kind, m, pad) == CASE form = "ssl2-padded" -> EncSsl2Padded(kind, m, pad)
                                 [] form = "empty-extensions-block" -> HelloEmptyExtensions(kind, m)
+                                [] form = "scsv-first" -> ClientHelloScsvFirst(m)
 
 Enc(kind, m) ==
   CASE kind = "record"            -> Record(m)
